@@ -50,6 +50,17 @@ class HashIgnoresComment(Canary):
         self._set(world.co, "_hashname", lambda s: orig(s.split("<<")[0]))
 
 
+class NamesFromSaltedHash(Canary):
+    """file names from the builtin hash() of the uri: stable inside one process, different in the next one.  Detected only
+    while the simulator owns the per-process salt (builtins.hash seam) and counts a reopen as a new process."""
+    name = "names_from_process_salted_hash"
+    prop = "C18"
+
+    def apply(self, world):
+        self._saved = []
+        self._set(world.co, "_hashname", lambda s: format(hash(s) & 0xFFFFFFFFFFFFFFFF, "016x"))
+
+
 class ToleranceInverted(Canary):
     name = "missing_file_tolerance_inverted"
     prop = "C19"
@@ -107,7 +118,7 @@ class FailuresSwallowed(Canary):
         self._set(world.co, "_download_from_resources", wrapped)
 
 
-ALL = [NoTouchOnHit, EvictionIgnoresKeep, HashIgnoresComment, ToleranceInverted, ValidatorIgnored, FailuresSwallowed]
+ALL = [NoTouchOnHit, EvictionIgnoresKeep, HashIgnoresComment, NamesFromSaltedHash, ToleranceInverted, ValidatorIgnored, FailuresSwallowed]
 
 
 def for_property(prop):
